@@ -243,6 +243,10 @@ func genRemoteRoot(t *rapid.T, tag string) string {
 	for i := 0; i < n; i++ {
 		el = append(el, rapid.SampledFrom([]string{"home", "u", "usr", "lib", "go", "r", "opt", tag, "rené", "Program Files", "src", "srcs", "pkg", "mod"}).Draw(t, "rootElem"))
 	}
+	if oneIn(t, 6, "driveLetterRoot") {
+		// a dump taken on Windows (the runtime prints forward slashes) analysed here
+		return rapid.SampledFrom([]string{"C:", "D:", "c:"}).Draw(t, "drive") + "/" + strings.Join(el, "/") + "/" + tag
+	}
 	return "/" + strings.Join(el, "/") + "/" + tag
 }
 
